@@ -144,6 +144,7 @@ type Ctx struct {
 	freshRefs   map[string]bool
 	frameCallee []string
 	variantAt   map[int]string
+	useIx       bool
 }
 
 // frameWrite records a write to heap key `key` at object `ref` for the frame check.
@@ -505,7 +506,7 @@ func (c *Ctx) heapGet(s *State, key, sort string) string {
 	// not touched on this path yet: the symbol of the latest havoc epoch covering the key (0 = function entry)
 	epoch := 0
 	for _, m := range s.epochs {
-		if strings.HasPrefix(key, m.prefix) {
+		if keyMatches(key, m.prefix) {
 			epoch = m.id
 		}
 	}
@@ -543,13 +544,23 @@ func (c *Ctx) heapHavoc(s *State, key, sort string) {
 	}
 }
 
-// pendingHavoc havocs every key with the given prefix, including keys not materialised yet.
+// keyMatches: a pattern ending in '*' (or '.' or empty) is a raw prefix; otherwise it names one key with all its leaves.
+func keyMatches(key, pat string) bool {
+	if pat == "" || strings.HasSuffix(pat, "*") || strings.HasSuffix(pat, ".") {
+		return strings.HasPrefix(key, strings.TrimSuffix(pat, "*"))
+	}
+	if !strings.HasPrefix(key, pat) {
+		return false
+	}
+	return len(key) == len(pat) || key[len(pat)] == '#' || key[len(pat)] == '.' || key[len(pat)] == '$'
+}
+
+// pendingHavoc havocs every key matching the pattern, including keys not materialised yet.
 func (c *Ctx) pendingHavoc(s *State, prefix string) {
-	prefix = strings.TrimSuffix(prefix, "*")
 	c.nfresh++
 	s.epochs = append(append([]epochMark(nil), s.epochs...), epochMark{prefix, c.nfresh})
 	for k := range s.heap {
-		if strings.HasPrefix(k, prefix) {
+		if keyMatches(k, prefix) {
 			delete(s.heap, k)
 		}
 	}
@@ -606,13 +617,27 @@ func (c *Ctx) writeField(s *State, ref string, st types.Type, f *types.Var, v Va
 
 func memKey(elem types.Type) string { return "M." + typeKey(elem) }
 
+// elemIndex is the position of element idx of a slice with backing-array offset off. For symbolic offsets the sum is
+// wrapped in the uninterpreted ix (with defining axiom ix(o,k) = o+k) so that quantified facts about slice elements
+// have a trigger without interpreted arithmetic.
+func (c *Ctx) elemIndex(off, idx string) string {
+	if _, lit := isNumLit(off); lit {
+		return add(off, idx)
+	}
+	if _, lit := isNumLit(idx); lit && false {
+		return add(off, idx)
+	}
+	c.useIx = true
+	return app("ix", off, idx)
+}
+
 // readElem reads s[i] (no bounds obligation here).
 func (c *Ctx) readElem(s *State, sv SliceV, idx string, elem types.Type) Value {
 	ls := leaves(elem)
 	var ts []string
 	for _, l := range ls {
 		m := c.heapGet(s, memKey(elem)+l, sA2)
-		ts = append(ts, sel(sel(m, sv.Ref), add(sv.Off, idx)))
+		ts = append(ts, sel(sel(m, sv.Ref), c.elemIndex(sv.Off, idx)))
 	}
 	v, _ := unflatten(ts, elem)
 	c.assumeTyped(s, v, elem)
@@ -626,7 +651,7 @@ func (c *Ctx) writeElem(s *State, sv SliceV, idx string, elem types.Type, v Valu
 	for i, l := range ls {
 		key := memKey(elem) + l
 		m := c.heapGet(s, key, sA2)
-		c.heapSet(s, key, sA2, store(m, sv.Ref, store(sel(m, sv.Ref), add(sv.Off, idx), ts[i])))
+		c.heapSet(s, key, sA2, store(m, sv.Ref, store(sel(m, sv.Ref), c.elemIndex(sv.Off, idx), ts[i])))
 	}
 }
 
